@@ -127,6 +127,41 @@ Section PD.
     rewrite E. now apply prim_roundtrip.
   Qed.
 
+  (* default-setting is idempotent: once the default of an absent scalar parameter is written, the
+     parameter is found, and a second validation leaves the request as it is *)
+  Theorem set_param_default_idempotent p d :
+    pd_in p <> LPath ->
+    allowed_cell (pd_in p) (eff_style p) (eff_explode p) = true ->
+    defined_cell p (SPrim (sprint d)) = true ->
+    shape_of (pd_schema p) = ShPrim -> scalar d = true -> sprint d <> ""%string ->
+    param_default (pd_schema p) = Some d ->
+    let once := set_param_default sprint pi64 pi32 pf false p frag0 in
+    set_param_default sprint pi64 pi32 pf false p once = once.
+  Proof.
+    intros Hp Hall Hdef Hsh Hs Ht Hd once. subst once.
+    assert (E0 : decode_param pi64 pi32 pf p frag0 = DRes PNil false None).
+    { unfold decode_param, frag0. destruct (pd_in p); cbn [f_path f_query f_header f_cookie]; [congruence|reflexivity| |].
+      - unfold header_decode. rewrite Hsh. cbn [allowed_cell] in Hall. rewrite Hall. reflexivity.
+      - unfold cookie_decode. rewrite Hsh. cbn [allowed_cell] in Hall. rewrite Hall. reflexivity. }
+    assert (E1 : set_param_default sprint pi64 pi32 pf false p frag0 = populate sprint p frag0 d).
+    { unfold set_param_default. now rewrite E0, Hd. }
+    rewrite E1. unfold set_param_default. rewrite (populated_scalar_reads_back p d Hp Hall Hdef Hsh Hs Ht).
+    destruct (parse_primitive pi64 pi32 pf (sprint d) (core_of (pd_schema p))) as [v|e]; cbn [of_pres]; [destruct v|]; reflexivity.
+  Qed.
+
+  (* whatever the request carries for the parameter - a value, an empty text, an undecodable text -
+     is left as it is: only "not found, no value, no error" is given the default *)
+  Theorem set_param_default_leaves_present p f :
+    decode_param pi64 pi32 pf p f <> DRes PNil false None ->
+    set_param_default sprint pi64 pi32 pf false p f = f.
+  Proof.
+    intros H. unfold set_param_default.
+    destruct (decode_param pi64 pi32 pf p f) as [v found e|w]; [|reflexivity].
+    destruct v; try reflexivity. destruct found; [reflexivity|]. destruct e; [reflexivity|]. now contradiction H.
+  Qed.
+  Theorem set_param_default_skipped p f : set_param_default sprint pi64 pi32 pf true p f = f.
+  Proof. reflexivity. Qed.
+
   (* an array default is written as the serialisation of its element texts: it decodes back to the
      elements read at the declared item type (C05_array_roundtrip) *)
   Theorem populated_array_reads_back p l ic vs :
